@@ -39,17 +39,20 @@ package graph
 //@ func DependencyGraph.Size
 //@   monitor[C19,C05,C06] wf: wf(g)
 //@   monitor[C19,C06] sort_cache: cacheOK(g)
+//@   monitor[C05,C19] cycle_cache by(cycle_cache) each_return: cycleCacheSound(g)
 //@   ensures[C19] size: result == len(g.nodes)
 //@   ensures[C19] unchanged: g.nodes == old(g.nodes) && g.edges == old(g.edges) && wf(g)
 //
 //@ func DependencyGraph.HasNode
 //@   monitor[C19,C05,C06] wf: wf(g)
 //@   monitor[C19,C06] sort_cache: cacheOK(g)
+//@   monitor[C05,C19] cycle_cache by(cycle_cache) each_return: cycleCacheSound(g)
 //@   ensures[C19] member: result <==> (mk("NodeKey", serviceType, key, group) in g.nodes)
 //
 //@ func DependencyGraph.GetNode
 //@   monitor[C19,C05,C06] wf: wf(g)
 //@   monitor[C19,C06] sort_cache: cacheOK(g)
+//@   monitor[C05,C19] cycle_cache by(cycle_cache) each_return: cycleCacheSound(g)
 //@   ensures[C19] present: (mk("NodeKey", serviceType, key, group) in g.nodes) ==> result == g.nodes[mk("NodeKey", serviceType, key, group)] && result != nil
 //@   ensures[C19] absent: !(mk("NodeKey", serviceType, key, group) in g.nodes) ==> result == nil
 //
@@ -66,6 +69,7 @@ package graph
 //@ func DependencyGraph.AddProviderDeferred
 //@   monitor[C19,C05,C06] wf: wf(g)
 //@   monitor[C19,C06] sort_cache: cacheOK(g)
+//@   monitor[C05,C19] cycle_cache by(cycle_cache) each_return: cycleCacheSound(g)
 //@   requires deps_nonnil: forall i int :: 0 <= i && i < len(depsOf(provider)) ==> depsOf(provider)[i] != nil
 //@   ensures[C19] nil_rejected: provider == nil ==> result != nil && g.nodes == old(g.nodes) && g.edges == old(g.edges) && wf(g)
 //@   ensures[C19] accepted: provider != nil ==> result == nil
@@ -144,6 +148,7 @@ package graph
 //@ func DependencyGraph.RemoveProvider
 //@   monitor[C19,C05,C06] wf: wf(g)
 //@   monitor[C19,C06] sort_cache: cacheOK(g)
+//@   monitor[C05,C19] cycle_cache by(cycle_cache) each_return: cycleCacheSound(g)
 //@   let tgt = mk("NodeKey", serviceType, key, group)
 //@   ensures[C19] absent_noop: !old(tgt in g.nodes) ==> g.nodes == old(g.nodes) && g.edges == old(g.edges)
 //@        && (forall j NodeKey :: ((j in g.nodes) <==> old(j in g.nodes)) && ((j in g.edges) <==> old(j in g.edges)) && g.edges[j] == old(g.edges[j]))
@@ -180,6 +185,7 @@ package graph
 //@ func DependencyGraph.GetDependencies
 //@   monitor[C19,C05,C06] wf: wf(g)
 //@   monitor[C19,C06] sort_cache: cacheOK(g)
+//@   monitor[C05,C19] cycle_cache by(cycle_cache) each_return: cycleCacheSound(g)
 //@   requires mirror: mirror(g)
 //@   let q = mk("NodeKey", serviceType, key, group)
 //@   ensures[C19] absent: !(q in g.nodes) ==> isnil(result)
@@ -189,18 +195,144 @@ package graph
 //@ func DependencyGraph.GetDependents
 //@   monitor[C19,C05,C06] wf: wf(g)
 //@   monitor[C19,C06] sort_cache: cacheOK(g)
+//@   monitor[C05,C19] cycle_cache by(cycle_cache) each_return: cycleCacheSound(g)
 //@   let q = mk("NodeKey", serviceType, key, group)
 //@   ensures[C19] absent: !(q in g.nodes) ==> isnil(result)
 //@   ensures[C19] present: (q in g.nodes) ==> !isnil(result) && len(result) == len(g.nodes[q].Dependents)
 //@        && (forall i int :: 0 <= i && i < len(result) ==> result[i] == g.nodes[q].Dependents[i])
 //
+// ---- depth-first cycle search -------------------------------------------------------------------------------------
+// Ghost reading of the explicit stack of detectCyclesFrom. n = len(stack); entry i is "marked" when !stack[i].visiting
+// (already expanded, waiting to be backtracked): the marked entries, bottom to top, are the current DFS path
+// pk[0..pl). d[i] = number of marked entries below i; si[j] = stack index of the j-th path entry; pidx[k] = position of
+// k on the path; pe[j] = index of the edge pk[j] -> pk[j+1]; se[i] = index of the edge (path entry below i) -> stack[i].key;
+// fin/ftime = finishing times (ftime: next finishing time) of backtracked nodes; w[i][x] = stack index above i that holds the x-th dependency of the
+// marked entry i while that dependency is not finished; V = set of backtracked nodes (mirrors the visited map).
+//@ pred dfsDepth(stack []stackItem, d fmap[int]int, pl int) = pl >= 0 && d[0] == 0 && pl == d[len(stack)]
+//@   && (forall i int :: 0 <= i && i < len(stack) ==> d[i+1] == d[i] + ite(stack[i].visiting, 0, 1))
+//@   && (forall i int, j int :: 0 <= i && i <= j && j <= len(stack) ==> 0 <= d[i] && d[i] <= d[j])
+//@ pred dfsPathOfStack(stack []stackItem, d fmap[int]int, pl int, pk seq[NodeKey], si fmap[int]int) =
+//@      (forall i int :: 0 <= i && i < len(stack) && !stack[i].visiting ==> pk[d[i]] == stack[i].key && si[d[i]] == i)
+//@   && (forall j int :: 0 <= j && j < pl ==> 0 <= si[j] && si[j] < len(stack) && !stack[si[j]].visiting && d[si[j]] == j)
+//@ pred dfsPathEdges(g *DependencyGraph, pl int, pk seq[NodeKey], pe fmap[int]int) =
+//@      forall j int :: 0 <= j && j + 1 < pl ==> 0 <= pe[j] && pe[j] < len(g.edges[pk[j]]) && g.edges[pk[j]][pe[j]] == pk[j+1]
+//@ pred dfsPushedBy(g *DependencyGraph, stack []stackItem, d fmap[int]int, pk seq[NodeKey], se fmap[int]int) =
+//@      forall i int :: 0 < i && i < len(stack) ==> d[i] >= 1 && 0 <= se[i] && se[i] < len(g.edges[pk[d[i]-1]]) && g.edges[pk[d[i]-1]][se[i]] == stack[i].key
+//@ pred dfsOnPath(visiting map[NodeKey]bool, pl int, pk seq[NodeKey], pidx fmap[NodeKey]int) =
+//@      (forall k NodeKey :: visiting[k] <==> (0 <= pidx[k] && pidx[k] < pl && pk[pidx[k]] == k))
+//@   && (forall j int :: 0 <= j && j < pl ==> pidx[pk[j]] == j)
+//@ pred dfsFinished(g *DependencyGraph, visited map[NodeKey]bool, fin fmap[NodeKey]int, ftime int) =
+//@      (forall u NodeKey, x int :: visited[u] && 0 <= x && x < len(g.edges[u]) ==> visited[g.edges[u][x]] && fin[g.edges[u][x]] < fin[u])
+//@   && (forall u NodeKey :: visited[u] ==> 0 <= fin[u] && fin[u] < ftime) && ftime >= 0
+//@ pred dfsMarkedOpen(stack []stackItem, visited map[NodeKey]bool) =
+//@      forall i int :: 0 <= i && i < len(stack) && !stack[i].visiting ==> !visited[stack[i].key]
+// every dependency of a marked entry is finished or still waiting above it (for entry t only the dependencies below lo)
+//@ pred dfsDepsPending(g *DependencyGraph, stack []stackItem, visited map[NodeKey]bool, w fmap[int]fmap[int]int, t int, lo int) =
+//@      forall i int, x int :: 0 <= i && i < len(stack) && !stack[i].visiting && 0 <= x && x < len(g.edges[stack[i].key]) && (i != t || x < lo) ==>
+//@         visited[g.edges[stack[i].key][x]] || (i < w[i][x] && w[i][x] < len(stack) && stack[w[i][x]].key == g.edges[stack[i].key][x])
+// p is a closed walk along edges of g
+//@ pred edgeTo(g *DependencyGraph, a NodeKey, b NodeKey) = exists x int :: 0 <= x && x < len(g.edges[a]) && g.edges[a][x] == b
+//@ pred isCycle(g *DependencyGraph, p []NodeKey) = len(p) >= 2 && p[0] == p[len(p)-1] && (forall q int :: 0 <= q && q + 1 < len(p) ==> edgeTo(g, p[q], p[q+1]))
+// (S, r): S contains k, is closed under edges, and r strictly decreases along every edge out of S: no cycle is reachable from k
+//@ pred closedRanked(g *DependencyGraph, S set[NodeKey], r fmap[NodeKey]int) =
+//@      forall u NodeKey, x int :: S[u] && 0 <= x && x < len(g.edges[u]) ==> S[g.edges[u][x]] && r[g.edges[u][x]] < r[u]
+//
+// r strictly decreases along every edge of g: the certificate that g has no directed cycle
+//@ pred ranked(g *DependencyGraph, r fmap[NodeKey]int) = forall u NodeKey, x int :: 0 <= x && x < len(g.edges[u]) ==> r[g.edges[u][x]] < r[u]
+//@ pred acyclic(g *DependencyGraph) = exists r fmap[NodeKey]int :: ranked(g, r)
+//@ pred onCycle(g *DependencyGraph, k NodeKey) = exists p []NodeKey :: isCycle(g, p) && p[0] == k
+// a cycle cache marked clean is right: a node cached as cyclic lies on a cycle; no node cached as cyclic means no cycle at all
+//@ pred cycleCacheSound(g *DependencyGraph) = !g.cycleCacheDirty ==>
+//@      (forall k NodeKey :: g.cycleCache[k] ==> onCycle(g, k)) && ((forall k NodeKey :: !g.cycleCache[k]) ==> acyclic(g))
+//
+// a walk along edges that starts inside a closed, ranked set stays inside it and loses at least one rank per step
+//@ lemma[C05,C19] walk_in_ranked_set
+//@   vars g *DependencyGraph, S set[NodeKey], r fmap[NodeKey]int, p []NodeKey, i int
+//@   induct i
+//@   requires closed: closedRanked(g, S, r)
+//@   requires starts_inside: len(p) >= 1 && S[p[0]]
+//@   requires walk: forall q int :: 0 <= q && q + 1 < len(p) ==> edgeTo(g, p[q], p[q+1])
+//@   ensures stays_inside: i < len(p) ==> S[p[i]] && r[p[i]] + i <= r[p[0]]
+// hence no cycle passes through a node of such a set
+//@ lemma[C05,C19] no_cycle_through_ranked_set
+//@   vars g *DependencyGraph, S set[NodeKey], r fmap[NodeKey]int, p []NodeKey
+//@   requires closed: closedRanked(g, S, r)
+//@   requires cycle: isCycle(g, p) && S[p[0]]
+//@   use walk_in_ranked_set(g, S, r, p, len(p) - 1)
+//@   ensures impossible: false
+//
 //@ func DependencyGraph.detectCyclesFrom
 //@   requires maps: g != nil && g.nodes != nil && g.edges != nil && g.cycleCache != nil
 //@   modifies map[NodeKey]bool, CircularDependencyError.Node, CircularDependencyError.Path, alloc
 //@   safety[C15,C05]
+//@   ghost pl int
+//@   ghost pk seq[NodeKey]
+//@   ghost pe fmap[int]int
+//@   ghost si fmap[int]int
+//@   ghost pidx fmap[NodeKey]int
+//@   ghost d fmap[int]int
+//@   ghost se fmap[int]int
+//@   ghost fin fmap[NodeKey]int
+//@   ghost ftime int
+//@   ghost w fmap[int]fmap[int]int
+//@   ghost V set[NodeKey]
+//@   ghost t0 int
 //@   ensures[C05] shape: result == nil || (typeis(result, "*CircularDependencyError") && as(result, "*CircularDependencyError") != nil && fresh(as(result, "*CircularDependencyError")))
+//@   ensures[C05,C19] reported_path_is_a_cycle by(cycle_walk_length, cycle_walk_follows_dfs_path, cycle_walk_edges): result != nil ==> isCycle(g, as(result, "*CircularDependencyError").Path)
+//@        && as(result, "*CircularDependencyError").Path[0] == as(result, "*CircularDependencyError").Node
+//@   exports V, fin, ftime
+//@   ensures[C05,C19] no_cycle_reachable_certificate: result == nil && g.nodes[start] != nil ==> V[start] && closedRanked(g, V, fin)
+//@   ensures[C05,C19] certificate_ranks_bounded: result == nil && g.nodes[start] != nil ==> ftime >= 0 && (forall u NodeKey :: V[u] ==> 0 <= fin[u] && fin[u] < ftime)
+//@   ensures[C05,C19] cache_map_kept: g.cycleCache == old(g.cycleCache)
+//@   ensures[C05,C19] cached_cycle_only_where_reported: forall k NodeKey :: g.cycleCache[k] ==> old(g.cycleCache[k]) || (result != nil && k == as(result, "*CircularDependencyError").Node)
+//@   ensures[C05,C19] reported_node_is_cached: result != nil ==> g.cycleCache[as(result, "*CircularDependencyError").Node]
+//@   at before assign stack#2 : assert[C05] backtracked_node_has_only_finished_dependencies: !visited[item.key] && (forall x int :: 0 <= x && x < len(g.edges[item.key]) ==> visited[g.edges[item.key][x]] && fin[g.edges[item.key][x]] < ftime)
+//@   at after assign visited[item.key]#1 : ghost fin[item.key] := ftime
+//@   at after assign visited[item.key]#1 : ghost ftime := ftime + 1
+//@   at after assign visited[item.key]#1 : ghost V[item.key] := true
+//@   at after assign visited[item.key]#1 : ghost pl := pl - 1
+//@   at after assign g.cycleCache[item.key]#1 : assert[C05] finished_after_backtrack: dfsFinished(g, visited, fin, ftime)
+//@   at after assign stack[len(stack)-1].visiting#1 : ghost pk[pl] := item.key
+//@   at after assign stack[len(stack)-1].visiting#1 : ghost pe[pl-1] := se[len(stack)-1]
+//@   at after assign stack[len(stack)-1].visiting#1 : ghost si[pl] := len(stack)-1
+//@   at after assign stack[len(stack)-1].visiting#1 : ghost pidx[item.key] := pl
+//@   at after assign stack[len(stack)-1].visiting#1 : ghost d[len(stack)] := d[len(stack)] + 1
+//@   at after assign stack[len(stack)-1].visiting#1 : ghost pl := pl + 1
+//@   at after assign stack[len(stack)-1].visiting#1 : ghost t0 := len(stack)-1
+//@   at after assign stack#4 : ghost d[len(stack)] := pl
+//@   at after assign stack#4 : ghost se[len(stack)-1] := idx
+//@   at after assign stack#4 : ghost w[t0] := store(w[t0], idx, len(stack)-1)
+//@   at before return#2 : assert[C05] cycle_walk_length: onCycle && 0 <= pidx[item.key] && pidx[item.key] < pl && len(path) == pl - pidx[item.key] + 1 && path[len(path)-1] == item.key && pk[pidx[item.key]] == item.key
+//@   at before return#2 : assert[C05] cycle_walk_follows_dfs_path: forall q int :: {path[q]} 0 <= q && q + 1 < len(path) ==> path[q] == pk[pidx[item.key] + q]
+//@   at before return#2 : assert[C05] cycle_walk_inner_edges: forall q int :: {path[q]} 0 <= q && q + 2 < len(path) ==> 0 <= pe[pidx[item.key] + q] && pe[pidx[item.key] + q] < len(g.edges[path[q]]) && g.edges[path[q]][pe[pidx[item.key] + q]] == path[q+1]
+//@   at before return#2 : assert[C05] cycle_walk_closing_edge: len(stack) >= 2 && 0 <= se[len(stack)-1] && se[len(stack)-1] < len(g.edges[path[len(path)-2]]) && g.edges[path[len(path)-2]][se[len(stack)-1]] == item.key
+//@   at before return#2 : assert[C05] cycle_walk_inner_edges_exist by(cycle_walk_inner_edges): forall q int :: 0 <= q && q + 2 < len(path) ==> edgeTo(g, path[q], path[q+1])
+//@   at before return#2 : assert[C05] cycle_walk_closing_edge_exists: edgeTo(g, path[len(path)-2], path[len(path)-1])
+//@   at before return#2 : assert[C05] cycle_walk_edges by(cycle_walk_inner_edges_exist, cycle_walk_closing_edge_exists): forall q int :: 0 <= q && q + 1 < len(path) ==> edgeTo(g, path[q], path[q+1])
 //@   loop 1
-//@     invariant maps: g.cycleCache != nil && visited != nil && visiting != nil && g.cycleCache == old(g.cycleCache)
+//@     invariant maps: g.cycleCache != nil && visited != nil && visiting != nil && g.cycleCache == old(g.cycleCache) && visited != visiting && visited != g.cycleCache && visiting != g.cycleCache
+//@     invariant depth: dfsDepth(stack, d, pl)
+//@     invariant path_of_stack: dfsPathOfStack(stack, d, pl, pk, si)
+//@     invariant path_edges: dfsPathEdges(g, pl, pk, pe)
+//@     invariant pushed_by: dfsPushedBy(g, stack, d, pk, se)
+//@     invariant on_path: dfsOnPath(visiting, pl, pk, pidx)
+//@     invariant finished: dfsFinished(g, visited, fin, ftime)
+//@     invariant marked_open: dfsMarkedOpen(stack, visited)
+//@     invariant deps_pending: dfsDepsPending(g, stack, visited, w, 0 - 1, 0)
+//@     invariant start_kept: visited[start] || (len(stack) > 0 && stack[0].key == start)
+//@     invariant V_mirrors: forall k NodeKey :: V[k] <==> visited[k]
+//@     invariant cache_only_cleared: forall k NodeKey :: g.cycleCache[k] ==> old(g.cycleCache[k])
+//@   loop 2
+//@     invariant on_cycle_from by(depth, path_of_stack, on_path, on_cycle_from): onCycle <==> d[idx] > pidx[item.key]
+//@     invariant path_so_far: len(path) == ite(onCycle, d[idx] - pidx[item.key], 0) && (forall q int :: 0 <= q && q < len(path) ==> path[q] == pk[pidx[item.key] + q])
+//@   loop 3
+//@     invariant top: 0 <= t0 && t0 < len(stack) && !stack[t0].visiting && stack[t0].key == item.key && d[t0] == pl - 1
+//@     invariant depth: dfsDepth(stack, d, pl)
+//@     invariant path_of_stack: dfsPathOfStack(stack, d, pl, pk, si)
+//@     invariant pushed_by: dfsPushedBy(g, stack, d, pk, se)
+//@     invariant marked_open: dfsMarkedOpen(stack, visited)
+//@     invariant deps_pending: dfsDepsPending(g, stack, visited, w, t0, idx)
+//@     invariant start_kept: visited[start] || (len(stack) > 0 && stack[0].key == start)
 //
 // cacheOK(g): a topological order marked clean lists nodes of the graph only, as many as there are nodes
 //@ pred cacheOK(g *DependencyGraph) = (!g.sortedNodesDirty && !isnil(g.sortedNodes)) ==> (len(g.sortedNodes) == len(g.nodes)
@@ -214,29 +346,64 @@ package graph
 //@ func DependencyGraph.DetectCycles
 //@   monitor[C19,C05,C06] wf: wf(g)
 //@   monitor[C19,C06] sort_cache: cacheOK(g)
+//@   monitor[C05,C19] cycle_cache by(cache_sound_after_cached_answer, cache_sound_kept, cache_sound_on_new_cycle, cache_sound_after_full_search): cycleCacheSound(g)
 //@   modifies map[NodeKey]bool, CircularDependencyError.Node, CircularDependencyError.Path, alloc, Node.InDegree, Node.OutDegree, Node.Dependents, Node.Dependencies, Node.Visited, Node.Visiting, DependencyGraph.cycleCache, DependencyGraph.cycleCacheDirty
 //@   safety[C15,C05]
+//@   ghost W set[NodeKey]
+//@   ghost R fmap[NodeKey]int
+//@   ghost B int
 //@   ensures[C05,C19] graph_unchanged: g.nodes == old(g.nodes) && g.edges == old(g.edges) && wf(g)
 //@   ensures[C05,C19] mirror: mirror(g) || !old(mirror(g))
 //@   ensures[C05] shape: result == nil || (typeis(result, "*CircularDependencyError") && as(result, "*CircularDependencyError") != nil)
+//@   ensures[C05,C19] reported_path_is_a_cycle by(reported_path_is_a_cycle): result != nil ==> isCycle(g, as(result, "*CircularDependencyError").Path)
+//@   ensures[C05,C19] nil_means_acyclic by(acyclic_after_full_search, acyclic_by_clean_cache, cached_cycle_found_again): result == nil ==> acyclic(g)
 //@   ensures[C05,C19] cache_clean: !g.cycleCacheDirty
 //@   ensures[C06,C19] degrees_fresh: dependentsOK(g)
 //@   ensures[C06,C19] sort_cache_untouched: g.sortedNodesDirty == old(g.sortedNodesDirty) && g.sortedNodes == old(g.sortedNodes)
 //@   ensures[C06,C19] providers_kept: forall k NodeKey :: (k in g.nodes) ==> g.nodes[k] == old(g.nodes[k]) && g.nodes[k].Provider == old(g.nodes[k].Provider)
+// cached answer "cyclic": the node cached as cyclic lies on a cycle, so the repeated search from it cannot come back empty
+//@   at before return#1 : obtain[C05] cyc []NodeKey by(cycle_cache, maps, cache_untouched) :: isCycle(g, cyc) && cyc[0] == key
+//@   at after call detectCyclesFrom#1 : use no_cycle_through_ranked_set(g, ghostof("detectCyclesFrom", "V"), ghostof("detectCyclesFrom", "fin"), cyc) when result == nil
+// full search: the certificates of the searches done so far are glued into one ranking of everything seen
+//@   at after call detectCyclesFrom#2 : ghost R := mapof u NodeKey :: ite(W[u], R[u], ghostof("detectCyclesFrom", "fin")[u] + B)
+//@   at after call detectCyclesFrom#2 : ghost W := mapof u NodeKey :: W[u] || ghostof("detectCyclesFrom", "V")[u]
+//@   at after call detectCyclesFrom#2 : ghost B := B + ghostof("detectCyclesFrom", "ftime")
+//@   at before return#4 : assert[C05] everything_ranked: ranked(g, R)
+//@   at before return#4 : exhibit[C05] acyclic_after_full_search by(everything_ranked): r := R :: acyclic(g)
+//@   at before return#2 : assert[C05] acyclic_by_clean_cache by(cycle_cache, none_cached_so_far, cache_untouched): acyclic(g)
+//@   at after call detectCyclesFrom#1 : assert[C05] cached_cycle_found_again: result != nil
+//@   at after call detectCyclesFrom#1 : exhibit[C05] cached_again_node_on_cycle by(reported_path_is_a_cycle): p := as(result, "*CircularDependencyError").Path :: onCycle(g, as(result, "*CircularDependencyError").Node)
+//@   at after call detectCyclesFrom#1 : assert[C05] cache_sound_after_cached_answer by(cycle_cache, cache_untouched, cached_cycle_only_where_reported, reported_node_is_cached, cached_again_node_on_cycle): cycleCacheSound(g)
+//@   at before return#2 : assert[C05] cache_sound_kept by(cycle_cache, cache_untouched): cycleCacheSound(g)
+//@   at before return#3 : exhibit[C05] reported_node_on_cycle by(reported_path_is_a_cycle): p := as(err, "*CircularDependencyError").Path :: onCycle(g, as(err, "*CircularDependencyError").Node)
+//@   at before return#3 : assert[C05] cache_sound_on_new_cycle by(nothing_cached_as_cyclic, cached_cycle_only_where_reported, reported_node_is_cached, reported_node_on_cycle): cycleCacheSound(g)
+//@   at before return#4 : assert[C05] cache_sound_after_full_search by(nothing_cached_as_cyclic, acyclic_after_full_search): cycleCacheSound(g)
+//@   loop 1
+//@     invariant maps: g.nodes == old(g.nodes) && g.edges == old(g.edges) && g.cycleCache == old(g.cycleCache) && !g.cycleCacheDirty
+//@     invariant none_cached_so_far: forall k NodeKey :: seen[k] ==> !g.cycleCache[k]
+//@     invariant cache_untouched: forall k NodeKey :: ((k in g.cycleCache) <==> old(k in g.cycleCache)) && (g.cycleCache[k] <==> old(g.cycleCache[k]))
 //@   loop 2
 //@     invariant maps: g.nodes == old(g.nodes) && g.edges == old(g.edges) && g.cycleCache != nil && s3(g)
+//@     invariant flags_cleared: forall k NodeKey :: seen[k] && (k in g.nodes) ==> !g.nodes[k].Visited
 //@   loop 3
 //@     invariant maps: g.nodes == old(g.nodes) && g.edges == old(g.edges) && g.cycleCache != nil && s3(g)
+//@     invariant flags_cleared: forall k NodeKey :: (k in g.nodes) ==> !g.nodes[k].Visited
+//@     invariant searched_are_ranked: forall k NodeKey :: seen[k] ==> W[k]
+//@     invariant ranking: closedRanked(g, W, R)
+//@     invariant ranks_bounded: B >= 0 && (forall u NodeKey :: W[u] ==> 0 <= R[u] && R[u] < B)
+//@     invariant nothing_cached_as_cyclic: forall k NodeKey :: !g.cycleCache[k]
 //
 //@ func DependencyGraph.IsAcyclic
 //@   monitor[C19,C05,C06] wf: wf(g)
 //@   monitor[C19,C06] sort_cache: cacheOK(g)
+//@   monitor[C05,C19] cycle_cache by(cycle_cache) each_return: cycleCacheSound(g)
 //@   modifies map[NodeKey]bool, CircularDependencyError.Node, CircularDependencyError.Path, alloc, Node.InDegree, Node.OutDegree, Node.Dependents, Node.Dependencies, Node.Visited, Node.Visiting, DependencyGraph.cycleCache, DependencyGraph.cycleCacheDirty
 //@   ensures[C05,C19] graph_unchanged: g.nodes == old(g.nodes) && g.edges == old(g.edges) && wf(g)
 //
 //@ func DependencyGraph.AddProvider
 //@   monitor[C19,C05,C06] wf: wf(g)
 //@   monitor[C19,C06] sort_cache: cacheOK(g)
+//@   monitor[C05,C19] cycle_cache by(cycle_cache) each_return: cycleCacheSound(g)
 //@   requires deps_nonnil: forall i int :: 0 <= i && i < len(depsOf(provider)) ==> depsOf(provider)[i] != nil
 //@   safety[C15,C19]
 //@   ensures[C19] nil_rejected: provider == nil ==> result != nil && g.nodes == old(g.nodes) && g.edges == old(g.edges) && wf(g)
@@ -278,6 +445,7 @@ package graph
 //@ func DependencyGraph.GetRoots
 //@   monitor[C19,C05,C06] wf: wf(g)
 //@   monitor[C19,C06] sort_cache: cacheOK(g)
+//@   monitor[C05,C19] cycle_cache by(cycle_cache) each_return: cycleCacheSound(g)
 //@   ensures[C19] sound: forall i int :: 0 <= i && i < len(result) ==> result[i] != nil && result[i].InDegree == 0 && (result[i].Key in g.nodes) && g.nodes[result[i].Key] == result[i]
 //@   ensures[C19] complete: forall k NodeKey :: k in g.nodes && g.nodes[k].InDegree == 0 ==> occursN(g.nodes[k], result)
 //@   ensures[C19] unchanged: g.nodes == old(g.nodes) && g.edges == old(g.edges) && wf(g)
@@ -288,6 +456,7 @@ package graph
 //@ func DependencyGraph.GetLeaves
 //@   monitor[C19,C05,C06] wf: wf(g)
 //@   monitor[C19,C06] sort_cache: cacheOK(g)
+//@   monitor[C05,C19] cycle_cache by(cycle_cache) each_return: cycleCacheSound(g)
 //@   ensures[C19] sound: forall i int :: 0 <= i && i < len(result) ==> result[i] != nil && result[i].OutDegree == 0 && (result[i].Key in g.nodes) && g.nodes[result[i].Key] == result[i]
 //@   ensures[C19] complete: forall k NodeKey :: k in g.nodes && g.nodes[k].OutDegree == 0 ==> occursN(g.nodes[k], result)
 //@   ensures[C19] unchanged: g.nodes == old(g.nodes) && g.edges == old(g.edges) && wf(g)
@@ -298,6 +467,7 @@ package graph
 //@ func DependencyGraph.TopologicalSort
 //@   monitor[C19,C05,C06] wf: wf(g)
 //@   monitor[C19,C06] sort_cache: cacheOK(g)
+//@   monitor[C05,C19] cycle_cache by(cycle_cache) each_return: cycleCacheSound(g)
 //@   modifies DependencyGraph.sortedNodes, DependencyGraph.sortedNodesDirty, alloc
 //@   safety[C15,C06]
 //@   ensures[C06,C19] graph_unchanged: g.nodes == old(g.nodes) && g.edges == old(g.edges) && wf(g)
